@@ -447,7 +447,7 @@ def run(ctx):
         if not same(impl, flat, skip=('blocks',)):
             ctx.violation('spec', f"reading the include tree differs from reading the flattened file: {first_diff(impl, flat)}",
                           {'tree': tree, 'kind': 'tree_vs_flat', 'diff': first_diff(impl, flat)},
-                          finding='F7c' if cond_moltype_include(tree) and 'error' not in impl and flat.get('error') == 'ErrIO' else None)
+                          finding='F7c' if cond_moltype_include(tree) and impl.get('error') != 'ErrIO' and flat.get('error') == 'ErrIO' else None)
         elif 'error' not in impl and [l for b in impl['blocks'] for l in b if not l.startswith('[ system') and not l.startswith('[ molecules')] != \
                 [l for b in flat['blocks'] for l in b if not l.startswith('[ system') and not l.startswith('[ molecules')]:
             pass   # block boundaries may differ between tree and flat; their content is compared through natoms below
